@@ -35,3 +35,8 @@ Inductive args_variant := ArgsAsWritten.
 Inductive pyyaml_variant :=
 | PyyamlByIndex        (* [*args[:1], args[1].with_changes(value=SafeLoader)]: position 1 whatever it is; the rest dropped *)
 | PyyamlByParameter.   (* the argument that binds Loader (keyword anywhere, else second plain positional), else appended *)
+
+(** codemodder/utils/utils.py positional_to_keyword: what happens at a starred argument. *)
+Inductive p2k_variant :=
+| P2kRaisesOnStar    (* as written: arg.with_changes(keyword=...) on `*a` / `**k` raises a libcst validation error (file untouched) *)
+| P2kCarriesOver.    (* from the first starred argument on, every argument is carried over unchanged *)
